@@ -177,14 +177,23 @@ def run(tier, seed):
     if model_ok:
         rc3, model, err3 = run_lines([ZVDRV, "c06"], lines)
     if len(impl) < len(lines) and len(spec) == len(lines):
-        # the real helper died on a line (a panic inside check_restrictions, e.g. arithmetic overflow): that line is the failing input
-        bad = lines[len(impl)]
+        # the real helper died (a panic inside check_restrictions, e.g. arithmetic overflow; its buffered replies are lost):
+        # bisect for the shortest prefix that still dies; its last line is the failing input
+        lo, hi = 0, len(lines)          # lines[:lo] survives, lines[:hi] dies
+        while hi - lo > 1:
+            mid = (lo + hi) // 2
+            _, rep, _ = run_lines([ZVH, "c06"], lines[:mid])
+            if len(rep) == mid:
+                lo = mid
+            else:
+                hi = mid
+        bad = lines[hi - 1]
         rc1, one, err1 = run_lines([ZVH, "c06"], [bad])
         if len(one) == 0:
-            c.cov.update({"evaluations": len(impl) + 1, "distinct_nontrivial": len(impl) + 1, "rule": "differential run stopped at the first input on which the real helper did not return",
+            c.cov.update({"evaluations": hi, "distinct_nontrivial": hi, "rule": "differential run stopped at the first input on which the real helper did not return",
                           "samples": [bad]})
             c.violation({"kind": "oracle", "what": "the real check_restrictions did not return a result (panic or abort) on this carrier|facets|value line",
-                         "line": bad, "xsd_verdict": spec[len(impl)], "stderr": (err1 or err)[-600:], "replay_cmd": f"echo '{bad}' | {ZVH} c06"})
+                         "line": bad, "xsd_verdict": spec[hi - 1], "stderr": (err1 or err)[-600:], "replay_cmd": f"echo '{bad}' | {ZVH} c06"})
             return c.finish(checker_cmd=CHECKER)
     if len(impl) != len(lines) or len(spec) != len(lines) or (model is not None and len(model) != len(lines)):
         c.violation({"kind": "harness", "what": "reply count mismatch", "impl": len(impl), "spec": len(spec),
